@@ -583,6 +583,21 @@ def extracted(model: Model) -> Extracted:
     return _cache[id(model)]
 
 
+def nonconstant_tags(ex: Extracted, run: Run, rule: str) -> None:
+    """A tag whose class/number are constants but whose constructed bit (or any other part) is computed from the value."""
+    seen = set()
+    for fq, line, txt, why, cls in ex.w.nonconst:
+        if (fq, txt) in seen:
+            continue
+        seen.add((fq, txt))
+        run.ob(rule, False, {"function": fq, "tag": txt})
+        fi = ex.m.functions.get(fq)
+        run.fail(Finding(rule, fq, txt[:100], f"{fq.split('sansldap.')[-1]} writes the identifier `{txt}`, part of which is computed at run time ({why}): "
+                         "the same field is encoded with different identifier octets depending on its content, which neither the grammar nor the reader's tag test allows for",
+                         f"{ex.m.relpath(fi.module)}:{line}" if fi else ""))
+    run.ob(rule, True, {"writer_tags_not_constant": len(seen)})
+
+
 def finish_with_errors(ex: Extracted, run: Run) -> None:
     """Reader functions whose shape the extractor does not know are undecided: exit 2 unless a violation was found anyway."""
     for c, msg in ex.errors.items():
